@@ -1,2 +1,161 @@
+//! C12 — Signature update is correct over any history of updates (model-based history monitor).
+//! Model: the message vector; reference: A* = B(msgs)/(sk+e) from the independent implementation.
+
+use crate::api::*;
 use crate::common::*;
-pub fn scenarios(_ctx: &Ctx) -> Vec<Scenario> { vec![] }
+use crate::refimpl as rf;
+use rand::RngCore;
+use serde_json::json;
+use std::collections::HashSet;
+
+fn a_star(s: rf::SuiteId, sk: &bls12_381_plus::Scalar, e: &bls12_381_plus::Scalar, header: &[u8], msgs: &[Vec<u8>]) -> [u8; 48] {
+    // B(msgs) / (sk + e) with the reference's generators, domain and message mapping
+    let api = s.api_id();
+    let w = rf::sk_to_pk(sk);
+    let gens = rf::create_generators(s, msgs.len() + 1, &api);
+    let ms = rf::messages_to_scalars(s, msgs, &api).unwrap();
+    let domain = rf::calculate_domain(s, &w, &gens[0], &gens[1..], header, &api).unwrap();
+    let mut b = s.p1() + gens[0] * domain;
+    for (h, m) in gens[1..].iter().zip(&ms) {
+        b += h * m;
+    }
+    rf::g1_c(&(b * (sk + e).invert().unwrap()))
+}
+
+fn history<X: Sx>(ctx: &Ctx, idx: u64, l: usize, steps: usize, exhaustive_positions: bool) {
+    let mut r = ctx.rng("c12", idx);
+    let skv = crate::c04::rand_scalar(&mut r);
+    let (sk, pk) = key_from_scalar(skv);
+    let hdr = Hdr::gen(&mut r, &[1, 30]);
+    let ho = hdr.as_opt();
+    let mut msgs = gen_messages(&mut r, l, idx as usize);
+    let base = format!("{}/L{}/hdr={}", name::<X>(), l, hdr.class());
+    let Some(mut sig) = ctx.call("sign", &base, None, || Sig::<X>::sign(Some(&msgs), &sk, &pk, ho)).value else {
+        ctx.inconclusive("C12: honest sign failed (C01's business)");
+        return;
+    };
+    let e0 = sig.e();
+    let mut earlier: Vec<Vec<Vec<u8>>> = vec![msgs.clone()];
+    let mut states: HashSet<Vec<Vec<u8>>> = HashSet::new();
+    states.insert(msgs.clone());
+    let mut plan: Vec<(usize, Vec<u8>, &'static str)> = vec![];
+    if exhaustive_positions {
+        for i in 0..l {
+            plan.push((i, rand_bytes(&mut r, 12), "fresh"));
+        }
+    }
+    for _ in 0..steps {
+        let i = rand_range(&mut r, l);
+        let kind = rand_range(&mut r, 6);
+        plan.push(match kind {
+            0 => (i, msgs[i].clone(), "same-as-old"), // placeholder, refreshed below
+            1 => (i, vec![], "empty"),
+            2 => (i, rand_bytes(&mut r, 300), "long"),
+            3 => (i, b"A".to_vec(), "revisit-A"),
+            4 => (i, b"B".to_vec(), "revisit-B"),
+            _ => (i, rand_bytes(&mut r, 8), "fresh"),
+        });
+    }
+    for (step, (i, mut newv, kind)) in plan.into_iter().enumerate() {
+        if kind == "same-as-old" {
+            newv = msgs[i].clone();
+        }
+        let case = format!("{}/step{}/pos{}/{}", base, step, i, kind);
+        ctx.distinct(&format!("{}/pos{}/{}", base, i, kind));
+        let old = msgs[i].clone();
+        let u = ctx.call("update_signature", &case, None, || sig.update_signature(&sk, &old, &newv, i, l));
+        let Some(nsig) = u.value else {
+            ctx.violation("C12:update-failed", json!({"case":case,"outcome":u.outcome.short()}));
+            return;
+        };
+        msgs[i] = newv.clone();
+        ctx.count("updates", 1);
+        // current signature verifies for the current vector
+        let v = ctx.call("verify", &case, None, || nsig.verify(&pk, Some(&msgs), ho));
+        if !v.outcome.is_ok() {
+            ctx.violation("C12:updated-signature-does-not-verify", json!({"case":case,"outcome":v.outcome.short(),"messages":msgs_json(&msgs)}));
+        }
+        // equals what the key holder would obtain for that vector with the same exponent
+        if nsig.e() != e0 {
+            ctx.violation("C12:exponent-changed", json!({"case":case}));
+        }
+        let want = a_star(X::ID, &skv, &e0, hdr.octets(), &msgs);
+        if nsig.to_bytes()[..48] != want {
+            ctx.violation("C12:updated-A-differs-from-reference", json!({"case":case,"got":hx(&nsig.to_bytes()[..48]),"want":hx(&want)}));
+        }
+        // does not verify for any earlier, different vector
+        for (k, em) in earlier.iter().enumerate().rev().take(6) {
+            if em != &msgs {
+                let v = ctx.call("verify", &case, None, || nsig.verify(&pk, Some(em), ho));
+                if v.outcome.is_ok() {
+                    ctx.violation("C12:verifies-for-earlier-vector", json!({"case":case,"earlier_step":k}));
+                }
+            }
+        }
+        // an update stating a wrong old value must not verify for the intended new vector
+        let wrong_old = { let mut w = old.clone(); w.push(0x55); w };
+        let intended = rand_bytes(&mut r, 6);
+        let w = ctx.call("update_signature", &case, None, || nsig.update_signature(&sk, &wrong_old, &intended, i, l));
+        if let Some(ws) = w.value {
+            let mut target = msgs.clone();
+            target[i] = intended;
+            if wrong_old != msgs[i] {
+                let v = ctx.call("verify", &case, None, || ws.verify(&pk, Some(&target), ho));
+                if v.outcome.is_ok() {
+                    ctx.violation("C12:wrong-old-value-accepted", json!({"case":case}));
+                }
+            }
+        }
+        if !states.insert(msgs.clone()) {
+            ctx.count("revisited_states", 1);
+        }
+        earlier.push(msgs.clone());
+        sig = nsig;
+    }
+    // out-of-range positions are refused with an error (a panic is a violation here)
+    for ui in [l, l + 1, 2 * l, 1 << 32, usize::MAX - 1, usize::MAX] {
+        let case = format!("{}/out-of-range/{}", base, ui);
+        ctx.distinct(&case);
+        let u = ctx.call("update_signature", &case, None, || sig.update_signature(&sk, &msgs[0], b"x", ui, l));
+        match u.outcome {
+            Outcome::Err(_) => {}
+            Outcome::Ok => ctx.violation("C12:out-of-range-position-accepted", json!({"case":case})),
+            Outcome::Panic(p) => ctx.violation("C12:out-of-range-position-panics", json!({"case":case,"panic":p})),
+        }
+    }
+    // wrong n: the updated signature must not verify for the intended vector unless n is the real count
+    for n in [l + 1, l.saturating_sub(1).max(1), usize::MAX] {
+        if n == l {
+            continue;
+        }
+        let case = format!("{}/wrong-n/{}", base, n);
+        let u = ctx.call("update_signature", &case, Some(l as u64 + 70), || sig.update_signature(&sk, &msgs[0], b"y", 0, n));
+        if u.outcome.is_panic() {
+            ctx.violation("C12:wrong-n-panics", json!({"case":case,"outcome":u.outcome.short()}));
+        }
+    }
+    ctx.count("distinct_states_visited", states.len() as u64);
+    ctx.sample(json!({"history":base,"steps":earlier.len()-1,"distinct_states":states.len()}));
+}
+
+pub fn scenarios(ctx: &Ctx) -> Vec<Scenario> {
+    let mut v = Vec::new();
+    let steps = ctx.t(8usize, 32usize);
+    let mut idx = 0u64;
+    for l in 1..=5usize {
+        for rep in 0..ctx.t(2, 6) {
+            let i = idx;
+            idx += 1;
+            let _ = rep;
+            v.push(scenario(format!("sha/L{l}"), move |c| history::<Sha>(c, i, l, steps, true)));
+            v.push(scenario(format!("shake/L{l}"), move |c| history::<Shake>(c, i, l, steps, true)));
+        }
+    }
+    for &l in ctx.t(&[16usize, 64][..], &[8usize, 16, 33, 64, 100, 257][..]) {
+        let i = idx;
+        idx += 1;
+        v.push(scenario(format!("sha/L{l}"), move |c| history::<Sha>(c, i, l, steps, false)));
+        v.push(scenario(format!("shake/L{l}"), move |c| history::<Shake>(c, i, l, steps, false)));
+    }
+    v
+}
